@@ -33,7 +33,11 @@ package sonic
 //@   // the immediate attempt is made only below the dispatch limit, and completes one level deeper
 //@   assert call listener).accept: l.ioc.Dispatched < MaxCallbackDispatch
 //@   assert call cb: 1 <= l.ioc.Dispatched && l.ioc.Dispatched <= MaxCallbackDispatch
+//@   // would-block is waited for, never reported; any other error of the immediate attempt is reported now
+//@   remember after call listener).accept: failed = result1 != nil && result1 != sonicerrors.ErrWouldBlock
+//@   assert call cb: [C01 would-block-not-reported] arg0 != sonicerrors.ErrWouldBlock
 //@   consumes cb unless lArmed(l)
+//@   ensures [C01 errors-reported] failed ==> invoked(cb) == 1
 //@   ensures [depth] l.ioc.Dispatched == old(l.ioc.Dispatched)
 
 // --- packetConn ---
